@@ -30,7 +30,7 @@ InitT == /\ \E k \in 1..Len(Cfgs) :
 Opt(b, s) == IF b THEN s ELSE <<>>
 
 (* longer behaviours concentrate on the clone positions and leave the polling out *)
-PollChoices == IF "nopoll" \in DOMAIN Scope THEN {0} ELSE {0, 2}
+PollChoices == IF "nopoll" \in DOMAIN Scope /\ Scope.nopoll THEN {0} ELSE {0, 2}
 Other(x) == Inputs[(x % Len(Inputs)) + 1]
 RECURSIVE Feed(_, _, _)
 Feed(slot, h, i) == IF i > Len(h) THEN <<>> ELSE <<<<"u", slot, h[i]>>>> \o Feed(slot, h, i + 1)
